@@ -30,6 +30,8 @@ def known(repo, fn, node, envs=None, pm=None):
     for g, role in A.guards_of(node, pm):
         if g["k"] == "If":
             add(g["cond"], role == "then")
+            if role == "then" and g["cond"]["k"] == "Let":
+                _found(repo, fn, envs, g["cond"]["expr"], out)
         elif g["k"] == "ForLoop":
             _filters(repo, fn, envs, g["iter"], out)
     for kind, c, st in A.preceding_guards(node, pm):
@@ -65,3 +67,28 @@ def _filters(repo, fn, envs, it, out, depth=0):
                 depth += 1
                 continue
         break
+
+
+def _found(repo, fn, envs, e, out, depth=0):
+    """`if let Some(x) = <iter>.find(|y| P(y))` (also through a local holding the result): P holds of what was found; so do the
+    predicates of filter adaptors further up the same chain"""
+    while e is not None and depth < 6:
+        while e["k"] in ("Ref", "Unary", "Paren"):
+            e = e["expr"]
+        if e["k"] == "MethodCall":
+            if e["method"] == "find" and e["args"] and e["args"][0]["k"] == "Closure":
+                body = e["args"][0]["body"]
+                while body["k"] == "Block" and len(body["stmts"]) == 1 and body["stmts"][0]["k"] == "ExprStmt":
+                    body = body["stmts"][0]["expr"]
+                for part in _split_and(body):
+                    out.add(SK.nnf(SK.cond_key(repo, fn, envs, part)))
+                _filters(repo, fn, envs, e["recv"], out, depth)
+            return
+        if e["k"] == "Path" and "::" not in e["path"]:
+            env = envs.get(id(e))
+            df = env.get(e["path"]) if env else None
+            if df is not None and df.kind == "let" and df.init is not None:
+                e = df.init
+                depth += 1
+                continue
+        return
